@@ -48,21 +48,31 @@ def ev_replace(b, sch, doc, di, f, t, sl, si):
     return b.add(ev)
 
 
-def all_cuts(sch, docs_real):
-    """Distinct slices cut from the given documents (every range), as (Slice, projection)."""
+def all_cuts(sch, docs_real, open_variants=True):
+    """Distinct slices cut from the given documents (every range), as (Slice, projection).  With
+    `open_variants` every range is also cut with its parents included (Node.slice(f, t, True): the slice is
+    open through the whole spine on both sides, e.g. a single node open at its start and its end) - shapes
+    that Node.slice never returns by itself but that pasted / decoded slices and Slice.max_open have."""
     seen = {}
+
+    def add(s):
+        p = proj.proj_slice(s)
+        k = json.dumps(p, sort_keys=True)
+        if k not in seen:
+            seen[k] = (s, p)
     for d in docs_real:
         n = d.content.size
         for f in range(n + 1):
             for t in range(f, n + 1):
                 try:
-                    s = d.slice(f, t)
+                    add(d.slice(f, t))
                 except Exception:  # noqa: BLE001
                     continue
-                p = proj.proj_slice(s)
-                k = json.dumps(p, sort_keys=True)
-                if k not in seen:
-                    seen[k] = (s, p)
+                if open_variants and t > f:
+                    try:
+                        add(d.slice(f, t, True))
+                    except Exception:  # noqa: BLE001
+                        pass
     return list(seen.values())
 
 
@@ -145,7 +155,9 @@ def run(tier: str, seed: int, t0: float) -> int:
         raise core.MachineryError("MC_Replace: " + "; ".join(r.errors[:3]) + r.stdout[-1500:])
     stats.add_tlc(r, "M MC_Replace")
     # ---- G + T exhaustive small scope
-    gb = universe.bounds(5 if not thorough else 6)
+    # two textblock types, one of them with two attribute values: a replace that rebuilds a node from the wrong
+    # side (slice instead of document) must show in the markup
+    gb = universe.bounds(5 if not thorough else 6, attrs={"h": [{"level": "1"}, {"level": "2"}]})
     sch, js, docs = universe.tlc_docs("s1t", gb, stats)
     real = [proj.unproj(sch, d) for d in docs]
     for d, rd in zip(docs, real):
@@ -187,6 +199,9 @@ def run(tier: str, seed: int, t0: float) -> int:
                 try:
                     s = rd.slice(f, t)
                     slices.append((s, proj.proj_slice(s)))
+                    if t > f:
+                        s2 = rd.slice(f, t, True)        # parents included: open through the whole spine
+                        slices.append((s2, proj.proj_slice(s2)))
                 except Exception:  # noqa: BLE001
                     pass
         for toks, rd in pairs:
@@ -203,10 +218,18 @@ def run(tier: str, seed: int, t0: float) -> int:
                     ev_replace(b, sch, rd, di, f, t, own, b.slice(proj.proj_slice(own)))
                 except Exception:  # noqa: BLE001
                     pass
-                for _ in range(3):
+                for _ in range(2):
                     if slices:
                         sl, p = rng.choice(slices)
                         ev_replace(b, sch, rd, di, f, t, sl, b.slice(p))
+                # foreign slices whose open depths fit the range (most random ones do not)
+                try:
+                    df, dt = rd.resolve(f).depth, rd.resolve(t).depth
+                except Exception:  # noqa: BLE001
+                    continue
+                fitting = [(sl, p) for sl, p in slices if p["os"] <= df and df - p["os"] == dt - p["oe"] and (p["os"] or p["oe"])]
+                for sl, p in (fitting if len(fitting) <= 3 else rng.sample(fitting, 3)):
+                    ev_replace(b, sch, rd, di, f, t, sl, b.slice(p))
         jobs.append((b, f"T random[{name}]"))
     # ---- T: every Node.replace / Node.slice on a document that the repository's own test-suite performs
     from .. import suitetrace
